@@ -675,7 +675,7 @@ func ruleMarkerArms(r *Report) {
 	h.Check(ok, "commitMarkers/offset", r.P.Pos(lf.Pos()), "fill list addressed by the reader's absolute offset", "the fill list is not addressed by the marker's absolute offset")
 	// recount after the loop: atomic store of fill.Count() in commitMarkers
 	recount := false
-	allInstrs(fn, func(ins ssa.Instruction) {
+	deepVisit(fn, func(ins, _ ssa.Instruction) {
 		if c, ok := ins.(*ssa.Call); ok && calleeIs(&c.Call, "sync/atomic.StoreUint64") {
 			if fr, ok := fieldOf(c.Call.Args[0]); ok && fr.Field == "count" {
 				if dependsOn(c.Call.Args[1], func(v ssa.Value) bool {
